@@ -60,8 +60,9 @@ type (
 	}
 	// avSlice references the elements stored in a heap object under "[i]" paths.
 	avSlice struct {
-		o *avObj
-		n int // known length, -1 unknown
+		o    *avObj
+		n    int    // known length, -1 unknown
+		path string // where the elements live in o: path + "[i]"
 	}
 )
 
@@ -851,7 +852,7 @@ func (e *Engine) builtin(st *State, name string, args []AV, c *ssa.CallCommon) A
 				known = false
 			}
 			for i := 0; i < a.n; i++ {
-				v, _ := st.load(avPtr{a.o, fmt.Sprintf("[%d]", i)})
+				v, _ := st.load(avPtr{a.o, a.path + fmt.Sprintf("[%d]", i)})
 				elems = append(elems, v)
 			}
 		default:
@@ -865,7 +866,7 @@ func (e *Engine) builtin(st *State, name string, args []AV, c *ssa.CallCommon) A
 					known = false
 				}
 				for i := 0; i < a.n; i++ {
-					v, _ := st.load(avPtr{a.o, fmt.Sprintf("[%d]", i)})
+					v, _ := st.load(avPtr{a.o, a.path + fmt.Sprintf("[%d]", i)})
 					elems = append(elems, v)
 				}
 			case avNil:
@@ -883,9 +884,9 @@ func (e *Engine) builtin(st *State, name string, args []AV, c *ssa.CallCommon) A
 					st.store(avPtr{o, "[*]"}, any)
 				}
 			}
-			return avSlice{o, -1}
+			return avSlice{o: o, n: -1}
 		}
-		return avSlice{o, len(elems)}
+		return avSlice{o: o, n: len(elems)}
 	}
 	e.Unmodelled["builtin "+name]++
 	return nil
@@ -921,7 +922,7 @@ func (e *Engine) eval(fr *frame, st *State, in ssa.Value) AV {
 		case avPtr:
 			return avPtr{x.o, x.path + idx}
 		case avSlice:
-			return avPtr{x.o, idx}
+			return avPtr{x.o, x.path + idx}
 		}
 		return nil
 	case *ssa.Index:
@@ -1048,8 +1049,15 @@ func (e *Engine) eval(fr *frame, st *State, in ssa.Value) AV {
 			ok = avConst{constant.MakeBool(false)}
 			v = zeroAV(in.AssertedType)
 		default:
-			ok = avSym{id: e.fresh(), tag: "assert-ok"}
-			v = avSym{id: e.fresh(), tag: "asserted", payload: x}
+			tn := typeShort(in.AssertedType)
+			if x != nil {
+				// one symbol per (operand, type): asserting the same value twice gives the same answer
+				ok = avSym{tag: "assert-ok:" + tn, payload: x}
+				v = avSym{tag: "asserted:" + tn, payload: x}
+			} else {
+				ok = avSym{id: e.fresh(), tag: "assert-ok:" + tn}
+				v = avSym{id: e.fresh(), tag: "asserted:" + tn}
+			}
 		}
 		if in.CommaOk {
 			return avTuple{v, ok}
@@ -1068,12 +1076,30 @@ func (e *Engine) eval(fr *frame, st *State, in ssa.Value) AV {
 		if c, ok := st.KnownInt(e.val(fr, st, in.Len)); ok && c == 0 {
 			n = 0
 		}
-		return avSlice{e.NewObj("", in.Type()), n}
+		return avSlice{o: e.NewObj("", in.Type()), n: n}
 	case *ssa.Slice:
 		x := e.val(fr, st, in.X)
-		if p, ok := x.(avPtr); ok && in.Low == nil && in.High == nil {
-			if arr, ok := derefType(in.X.Type()).Underlying().(*types.Array); ok && p.path == "" {
-				return avSlice{p.o, int(arr.Len())}
+		if p, ok := x.(avPtr); ok {
+			if arr, ok := derefType(in.X.Type()).Underlying().(*types.Array); ok {
+				lo, hi := int64(0), arr.Len()
+				known := true
+				if in.Low != nil {
+					lo, known = st.KnownInt(e.val(fr, st, in.Low))
+				}
+				if in.High != nil && known {
+					hi, known = st.KnownInt(e.val(fr, st, in.High))
+				}
+				if known && lo == 0 {
+					return avSlice{o: p.o, n: int(hi), path: p.path}
+				}
+			}
+		}
+		if sl, ok := x.(avSlice); ok && in.Low == nil {
+			if in.High == nil {
+				return sl
+			}
+			if hi, known := st.KnownInt(e.val(fr, st, in.High)); known {
+				return avSlice{o: sl.o, n: int(hi), path: sl.path}
 			}
 		}
 		if c, ok := x.(avConst); ok && c.v.Kind() == constant.String {
@@ -1101,6 +1127,11 @@ func (e *Engine) eval(fr *frame, st *State, in ssa.Value) AV {
 			return avSym{tag: "slice", payload: avTuple{x, lo, hi}}
 		}
 		return avSym{id: e.fresh(), tag: "slice", payload: x}
+	case *ssa.SliceToArrayPointer:
+		if sl, ok := e.val(fr, st, in.X).(avSlice); ok {
+			return avPtr{sl.o, sl.path}
+		}
+		return nil
 	case *ssa.Range:
 		return avSym{id: e.fresh(), tag: "range", payload: e.val(fr, st, in.X)}
 	case *ssa.Next:
